@@ -66,3 +66,5 @@ N("c01-n-exit-var", "C01", A, AE,
 N("c01-n-status-flat", "C01", TASKS, "TaskHandle.status",
   "        elif self._exception is not None:\n            if isinstance(self._exception, get_cancelled_exc_class()):\n                return TaskHandle.Status.CANCELLED\n            else:\n                return TaskHandle.Status.FAILED\n        else:\n            return TaskHandle.Status.FINISHED",
   "        if self._exception is None:\n            return TaskHandle.Status.FINISHED\n\n        if isinstance(self._exception, get_cancelled_exc_class()):\n            return TaskHandle.Status.CANCELLED\n\n        return TaskHandle.Status.FAILED")
+
+M("c01-classifier-not-total", "C01", A, "is_anyio_cancellation", "            exc.args\n            and isinstance(exc.args[0], str)\n            and exc.args[0].startswith", "            exc.args\n            and exc.args[0].startswith", ["R01-h"])
